@@ -9,7 +9,7 @@ cd /verif
 git -C $wt checkout -q -- . && git -C $wt checkout -q --detach "$(git -C /repo rev-parse HEAD)" || exit 3
 git -C $wt apply "$patch" || { echo "patch does not apply"; exit 3; }
 PATH=/opt/veriftools/go1.26.8/bin:$PATH GOTOOLCHAIN=local GOFLAGS=-mod=mod GOPROXY=off \
-  bin/gosym -repo $wt -tier $tier -evidence /tmp/seedtest-wt-evidence.json checks/$id.json > /tmp/seedtest.out 2> /tmp/seedtest.err
+  ${GOSYM:-bin/gosym} -repo $wt -tier $tier -evidence /tmp/seedtest-wt-evidence.json checks/$id.json > /tmp/seedtest.out 2> /tmp/seedtest.err
 rc=$?
 git -C $wt checkout -q -- .
 grep -E "^VIOLATION|^KNOWN" /tmp/seedtest.out | cut -c1-200
